@@ -242,7 +242,19 @@ def register_real(tokens):
 # ---- stubs bound into the synrbl modules
 
 
-class FakeMolObj:
+from vf.world.chem import StubMissing, _missing
+
+
+class _Strict:
+    """Fake RDKit objects answer only what the stub world models; anything else is a harness limit (StubMissing)."""
+
+    def __getattr__(self, name):
+        if name.startswith("__"):
+            raise AttributeError(name)
+        _missing(self, name)
+
+
+class FakeMolObj(_Strict):
     """What the fake MolFromSmiles returns for a valid string: only truthiness / identity is used."""
 
     def __init__(self, smiles):
@@ -251,11 +263,6 @@ class FakeMolObj:
     def __bool__(self):
         return True
 
-    def GetAtoms(self):  # count_radical_atoms / calculate_net_charge style callers are stubbed separately
-        return []
-
-    def GetNumAtoms(self):
-        return 0
 
 
 class FakeChem:
@@ -282,7 +289,7 @@ class FakeChem:
         return _Smarts(s)
 
 
-class _Smarts:
+class _Smarts(_Strict):
     def __init__(self, s):
         self.s = s
 
@@ -551,7 +558,7 @@ class _Model:
         return _Col(out)
 
 
-class _FeatMol:
+class _FeatMol(_Strict):
     def GetNumBonds(self):
         return 0
 
